@@ -44,9 +44,11 @@ def optimize_contains_types(source: str) -> str:
     ):
         # The replacement is put together as text, without the parentheses that an element
         # which binds less tightly than `in` has in the code.
-        if not isinstance(
-            template_match.element,
-            (ast.IfExp, ast.Lambda, ast.NamedExpr, ast.BoolOp, ast.Compare, ast.UnaryOp),
+        loosely_binding = (
+            ast.IfExp, ast.Lambda, ast.NamedExpr, ast.BoolOp, ast.Compare, ast.UnaryOp, ast.Starred
+        )
+        if not isinstance(template_match.element, loosely_binding) and not isinstance(
+            template_match.collection, loosely_binding
         ):
             yield tuple(replacement)
 
@@ -74,7 +76,9 @@ def optimize_contains_types(source: str) -> str:
                 if not isinstance(comp, preferred_type):
                     yield comp, preferred_type(elts=comp.elts)
 
-            elif core.match_template(comp, sorted_list_tuple_call_template):
+            elif core.match_template(
+                comp, sorted_list_tuple_call_template
+            ) and not isinstance(comp.args[0], loosely_binding):
                 yield comp, comp.args[0]
 
 
